@@ -1,41 +1,853 @@
-use std::path::Path;
-use clap::Command;
-use routinator::{Config, Operation};
-use rvcore::Ctx;
+//! C35: `routinator … config` prints a config file that reads back identically.
+//!
+//! Every case runs the *real* pipeline of `main.rs` twice:
+//!
+//! 1. `Operation::config_args(Config::config_args(Command))` →
+//!    `try_get_matches_from(args)` → `Config::from_arg_matches` (reads the base config
+//!    file, applies the global options) → `Operation::from_arg_matches` (applies the
+//!    options of the `config` sub-command) → `Config` → `to_string()` (exactly what
+//!    `routinator config` prints);
+//! 2. the printed text is written to the very config file path and the pipeline runs
+//!    again without options → `Config`.
+//!
+//! Oracle: the second `Config` equals (`==`) the first with `fresh` reset (documented as
+//! command-line only).  The Lean model gets the same abstract assignment (options,
+//! file entries) and must predict acceptance, the configuration, the printed document
+//! and the read-back configuration.
 
-fn cmd() -> Command {
+use std::collections::BTreeSet;
+use std::ffi::OsString;
+use std::net::{IpAddr, SocketAddr};
+use std::os::unix::ffi::{OsStrExt, OsStringExt};
+use std::path::{Path, PathBuf};
+use std::str::FromStr;
+use clap::{ArgAction, Command};
+use clap::builder::ValueParser;
+use routinator::{Config, Operation};
+use routinator::config::{FallbackPolicy, FilterPolicy, LogTarget};
+use rvcore::{Ctx, Rng};
+use serde_json::{json, Value};
+use toml_edit as toml;
+
+const I64MAX: u128 = i64::MAX as u128;
+const U64MAX: u128 = u64::MAX as u128;
+
+//------------ The real command line -------------------------------------------
+
+fn command() -> Command {
     Operation::config_args(Config::config_args(Command::new("Routinator")))
 }
 
-fn load(args: &[&str], cur: &Path) -> Result<Config, String> {
-    let m = cmd().try_get_matches_from(args).map_err(|e| format!("clap:{:?}", e.kind()))?;
-    let mut c = Config::from_arg_matches(&m, cur).map_err(|_| "config".to_string())?;
-    Operation::from_arg_matches(&m, cur, &mut c).map_err(|_| "op".to_string())?;
-    Ok(c)
+#[derive(Clone, Debug, PartialEq, Eq)]
+enum OptKind { Flag, Count, Nat, Str(&'static str) }
+
+#[derive(Clone, Debug)]
+struct Opt {
+    long: String,
+    server: bool,
+    kind: OptKind,
+    multi: bool,
 }
 
-pub fn run_c35(_ctx: &mut Ctx) {
-    let home = std::env::temp_dir().join(format!("rvc-{}", std::process::id()));
-    std::fs::create_dir_all(&home).unwrap();
-    std::env::set_var("HOME", &home);
+/// The options of the real command (global ones and those of `config`), found by
+/// introspection of the clap `Command` — not from the extracted table.
+fn catalogue() -> Vec<Opt> {
+    let cmd = command();
+    let mut res = Vec::new();
+    let known: Vec<(&'static str, clap::builder::ValueParser)> = vec![
+        ("u8", clap::value_parser!(u8).into()),
+        ("u16", clap::value_parser!(u16).into()),
+        ("u32", clap::value_parser!(u32).into()),
+        ("u64", clap::value_parser!(u64).into()),
+        ("usize", clap::value_parser!(usize).into()),
+        ("String", ValueParser::string()),
+        ("PathBuf", ValueParser::path_buf()),
+        ("IpAddr", clap::value_parser!(IpAddr).into()),
+        ("SocketAddr", clap::value_parser!(SocketAddr).into()),
+        ("FilterPolicy", clap::value_parser!(FilterPolicy).into()),
+        ("FallbackPolicy", clap::value_parser!(FallbackPolicy).into()),
+    ];
+    let sub = cmd.get_subcommands().find(|c| c.get_name() == "config")
+        .expect("config sub-command").clone();
+    for (server, c) in [(false, &cmd), (true, &sub)] {
+        for arg in c.get_arguments() {
+            let long = match arg.get_long() { Some(l) => l.to_string(), None => continue };
+            if long == "help" || long == "version" || long == "config" { continue }
+            let (kind, multi) = match arg.get_action() {
+                ArgAction::SetTrue => (OptKind::Flag, false),
+                ArgAction::Count => (OptKind::Count, true),
+                action @ (ArgAction::Set | ArgAction::Append) => {
+                    let id = arg.get_value_parser().type_id();
+                    let name = known.iter().find(|(_, vp)| vp.type_id() == id)
+                        .map(|(n, _)| *n).unwrap_or("?");
+                    let kind = match name {
+                        "u8" | "u16" | "u32" | "u64" | "usize" => OptKind::Nat,
+                        other => OptKind::Str(other),
+                    };
+                    (kind, matches!(action, ArgAction::Append))
+                }
+                _ => continue,
+            };
+            res.push(Opt { long, server, kind, multi });
+        }
+    }
+    res
+}
+
+//------------ File keys ---------------------------------------------------------
+
+#[derive(Clone, Copy, Debug, PartialEq, Eq)]
+enum Cat { Raw, Path, Policy, Fallback, Ip, Sock, Level, Facility, LogKind, Tal }
+
+#[derive(Clone, Copy, Debug, PartialEq, Eq)]
+enum KeyKind { Bool, Int, Str(Cat), Strs(Cat), Pairs }
+
+fn file_keys() -> Vec<(String, KeyKind)> {
+    use KeyKind::*;
+    let mut res: Vec<(String, KeyKind)> = Vec::new();
+    for k in ["no-rir-tals", "strict", "allow-dubious-hosts", "disable-rsync", "disable-rrdp",
+              "enable-bgpsec", "enable-aspa", "dirty", "systemd-listen", "rtr-client-metrics",
+              "log-repository-issues"] {
+        res.push((k.into(), Bool))
+    }
+    for k in ["limit-v4-len", "limit-v6-len", "rsync-timeout", "rrdp-fallback-time",
+              "rrdp-max-delta-count", "rrdp-max-delta-list-len", "rrdp-timeout",
+              "rrdp-read-timeout", "rrdp-connect-timeout", "rrdp-tcp-keepalive",
+              "max-object-size", "max-ca-depth", "validation-threads", "refresh",
+              "min-refresh", "retry", "expire", "history-size", "rtr-tcp-keepalive"] {
+        res.push((k.into(), Int))
+    }
+    for k in ["repository-dir", "extra-tals-dir", "rtr-tls-key", "rtr-tls-cert", "http-tls-key",
+              "http-tls-cert", "pid-file", "working-dir", "chroot", "log-file", "tal-dir"] {
+        res.push((k.into(), Str(Cat::Path)))
+    }
+    for k in ["stale", "unsafe-vrps", "unknown-objects"] { res.push((k.into(), Str(Cat::Policy))) }
+    res.push(("rrdp-fallback".into(), Str(Cat::Fallback)));
+    res.push(("rrdp-local-addr".into(), Str(Cat::Ip)));
+    res.push(("log-level".into(), Str(Cat::Level)));
+    res.push(("log".into(), Str(Cat::LogKind)));
+    res.push(("syslog-facility".into(), Str(Cat::Facility)));
+    for k in ["rsync-command", "user", "group"] { res.push((k.into(), Str(Cat::Raw))) }
+    res.push(("tals".into(), Strs(Cat::Tal)));
+    res.push(("exceptions".into(), Strs(Cat::Path)));
+    res.push(("rsync-args".into(), Strs(Cat::Raw)));
+    res.push(("rrdp-root-certs".into(), Strs(Cat::Path)));
+    res.push(("rrdp-proxies".into(), Strs(Cat::Raw)));
+    for k in ["rtr-listen", "rtr-tls-listen", "http-listen", "http-tls-listen"] {
+        res.push((k.into(), Strs(Cat::Sock)))
+    }
+    res.push(("tal-labels".into(), Pairs));
+    // Keys the real `to_toml` prints that are not listed above (new options).
+    let dflt = Config::default_with_paths("/x/r.conf".into(), "/x/repo".into()).to_toml();
+    for (key, item) in dflt.iter() {
+        if res.iter().any(|(k, _)| k == key) { continue }
+        let kind = match item.as_value() {
+            Some(toml::Value::Boolean(_)) => Bool,
+            Some(toml::Value::Integer(_)) => Int,
+            Some(toml::Value::String(_)) => Str(Cat::Raw),
+            Some(toml::Value::Array(_)) => Strs(Cat::Raw),
+            _ => continue,
+        };
+        res.push((key.to_string(), kind));
+    }
+    res
+}
+
+fn pool(cat: Cat) -> &'static [&'static str] {
+    match cat {
+        Cat::Raw => &["", "rsync", "a b", "q\"uote", "back\\slash", "new\nline", "tab\there",
+                      "\u{fc}n\u{ef}", "\u{65e5}\u{672c}", "-dash", "#hash", "'", "x=y", "[a]",
+                      "\u{7f}", "\u{1}ctl", "http://proxy.example:8080/", "--flag"],
+        Cat::Path => &["/abs/p", "rel/p", "rel", "/", "/a b/c", "./x", "../y", "/tmp/\u{fc}",
+                       "dir/", "//dbl", "/q\"uote", "/back\\slash", ""],
+        Cat::Policy => &["reject", "warn", "accept", "Reject", "bogus", ""],
+        Cat::Fallback => &["never", "stale", "new", "NEW", "x"],
+        Cat::Ip => &["127.0.0.1", "::1", "2001:db8::1", "::ffff:1.2.3.4", "1.2.3", "[::1]",
+                     "2001:DB8:0:0::1", "010.1.1.1"],
+        Cat::Sock => &["127.0.0.1:323", "[::1]:8323", "[2001:db8::4]:323", "0.0.0.0:0",
+                       "[fe80::1%3]:1", "1.2.3.4", "localhost:1", "[2001:DB8::0:4]:00323",
+                       "192.0.2.4:65535", "192.0.2.4:65536"],
+        Cat::Level => &["warn", "WARN", "Info", "trace", "off", "bogus", "debug", "ERROR"],
+        Cat::Facility => &["daemon", "DAEMON", "log_user", "clock_daemon", "local7", "bogus",
+                           "kern", "authpriv", "clockdaemon", "LOG_CLOCK_DAEMON", "audit"],
+        Cat::LogKind => &["default", "syslog", "stderr", "file", "bogus", "File"],
+        Cat::Tal => &["apnic-testbed", "afrinic", "foo", "nlnetlabs-testbed", "a b", ""],
+    }
+}
+
+const NAT_EDGES: &[u128] = &[
+    0, 1, 2, 31, 32, 33, 127, 128, 129, 255, 256, 600, 65534, 65535, 65536,
+    (u32::MAX as u128) - 1, u32::MAX as u128, (u32::MAX as u128) + 1,
+    I64MAX - 1, I64MAX, I64MAX + 1, U64MAX - 1, U64MAX, U64MAX + 1,
+];
+
+//------------ Abstract inputs ------------------------------------------------------
+
+fn opt_cat(o: &Opt) -> Cat {
+    match &o.kind {
+        OptKind::Str("PathBuf") => Cat::Path,
+        OptKind::Str("FilterPolicy") => Cat::Policy,
+        OptKind::Str("FallbackPolicy") => Cat::Fallback,
+        OptKind::Str("IpAddr") => Cat::Ip,
+        OptKind::Str("SocketAddr") => Cat::Sock,
+        _ => match o.long.as_str() {
+            "syslog-facility" => Cat::Facility,
+            "logfile" => Cat::Path,
+            "tal" => Cat::Tal,
+            _ => Cat::Raw,
+        }
+    }
+}
+
+fn gen_aval(rng: &mut Rng, o: &Opt) -> Value {
+    match &o.kind {
+        OptKind::Flag => json!("f"),
+        OptKind::Count => json!({"c": rng.range(1, 3)}),
+        OptKind::Nat => {
+            let n = if rng.chance(3, 4) { *rng.pick(NAT_EDGES) } else {
+                match rng.below(3) { 0 => rng.below(70000) as u128, 1 => rng.next() as u128, _ => rng.below(300) as u128 }
+            };
+            json!({"n": n.to_string()})
+        }
+        OptKind::Str(_) => {
+            let cat = opt_cat(o);
+            let s = if o.long == "logfile" && rng.chance(1, 4) { "-" } else { *rng.pick(pool(cat)) };
+            json!({"s": s})
+        }
+    }
+}
+
+fn gen_fval(rng: &mut Rng, kind: KeyKind) -> Value {
+    // occasionally a value of the wrong TOML type
+    if rng.chance(1, 25) {
+        return match rng.below(5) {
+            0 => json!({"b": true}), 1 => json!({"i": "1"}), 2 => json!({"s": "x"}),
+            3 => json!({"raw": "1.5"}), _ => json!({"raw": "[1, \"a\"]"}),
+        }
+    }
+    match kind {
+        KeyKind::Bool => json!({"b": rng.chance(1, 2)}),
+        KeyKind::Int => {
+            let n: i128 = if rng.chance(1, 30) { -1 } else if rng.chance(3, 4) {
+                let mut v = *rng.pick(NAT_EDGES);
+                if v > I64MAX { v = I64MAX }
+                v as i128
+            } else { rng.below(70000) as i128 };
+            json!({"i": n.to_string()})
+        }
+        KeyKind::Str(cat) => json!({"s": *rng.pick(pool(cat))}),
+        KeyKind::Strs(cat) => {
+            if cat == Cat::Path && rng.chance(1, 6) { return json!({"s": *rng.pick(pool(cat))}) }
+            let n = *rng.pick(&[0usize, 0, 1, 1, 2, 3]);
+            let v: Vec<&str> = (0..n).map(|_| *rng.pick(pool(cat))).collect();
+            json!({"a": v})
+        }
+        KeyKind::Pairs => {
+            let n = *rng.pick(&[0usize, 1, 2, 3]);
+            let keys = ["ripe.tal", "arin.tal", "x", "ripe.tal", ""];
+            let v: Vec<[&str; 2]> = (0..n).map(|_| [*rng.pick(&keys), *rng.pick(pool(Cat::Raw))]).collect();
+            if rng.chance(1, 12) { json!({"raw": "[[\"a\", \"b\", \"c\"]]"}) } else { json!({"p": v}) }
+        }
+    }
+}
+
+fn gen_base(rng: &mut Rng, keys: &[(String, KeyKind)], max: usize) -> Value {
+    let mut entries: Vec<Value> = Vec::new();
+    let mut seen = BTreeSet::new();
+    if rng.chance(19, 20) {
+        let p = if rng.chance(4, 5) { "/var/repo" } else { *rng.pick(pool(Cat::Path)) };
+        entries.push(json!(["repository-dir", {"s": p}]));
+        seen.insert("repository-dir".to_string());
+    }
+    let n = rng.below(max as u64 + 1) as usize;
+    for _ in 0..n {
+        let (k, kind) = rng.pick(keys).clone();
+        if !seen.insert(k.clone()) { continue }
+        entries.push(json!([k, gen_fval(rng, kind)]));
+    }
+    if rng.chance(1, 30) { entries.push(json!(["bogus-key", {"b": true}])) }
+    rng.shuffle(&mut entries);
+    json!({"explicit": rng.chance(1, 2), "entries": entries})
+}
+
+fn gen_args(rng: &mut Rng, cat: &[Opt], max: usize) -> Vec<Value> {
+    let n = rng.below(max as u64 + 1) as usize;
+    let mut res = Vec::new();
+    for _ in 0..n {
+        let o = rng.pick(cat);
+        let reps = if o.multi && o.kind != OptKind::Count && rng.chance(1, 2) { rng.range(1, 3) } else { 1 };
+        for _ in 0..reps {
+            res.push(json!([format!("--{}", o.long), gen_aval(rng, o)]));
+        }
+    }
+    res
+}
+
+//------------ Running the real code ---------------------------------------------------
+
+struct Home { dir: PathBuf }
+
+impl Home {
+    fn new() -> Self {
+        let dir = std::env::temp_dir().join(format!("rvc35-{}", std::process::id()));
+        let _ = std::fs::remove_dir_all(&dir);
+        std::fs::create_dir_all(dir.join("etc")).expect("create home");
+        std::env::set_var("HOME", &dir);
+        Home { dir }
+    }
+    fn conf_path(&self, explicit: bool) -> PathBuf {
+        if explicit { self.dir.join("etc").join("r.conf") } else { self.dir.join(".routinator.conf") }
+    }
+}
+
+impl Drop for Home {
+    fn drop(&mut self) { let _ = std::fs::remove_dir_all(&self.dir); }
+}
+
+#[derive(Debug)]
+enum Rej { Clap, Config }
+
+fn run_pipeline(args: &[OsString], cur: &Path) -> Result<Config, Rej> {
+    let matches = command().try_get_matches_from(args).map_err(|_| Rej::Clap)?;
+    let mut config = Config::from_arg_matches(&matches, cur).map_err(|_| Rej::Config)?;
+    Operation::from_arg_matches(&matches, cur, &mut config).map_err(|_| Rej::Config)?;
+    Ok(config)
+}
+
+fn toml_value(v: &Value) -> Option<toml::Item> {
+    if let Some(b) = v.get("b").and_then(|b| b.as_bool()) {
+        return Some(toml::Item::Value(b.into()))
+    }
+    if let Some(i) = v.get("i").and_then(|i| i.as_str()) {
+        return Some(toml::Item::Value(i.parse::<i64>().ok()?.into()))
+    }
+    if let Some(s) = v.get("s").and_then(|s| s.as_str()) {
+        return Some(toml::Item::Value(s.into()))
+    }
+    if let Some(a) = v.get("a").and_then(|a| a.as_array()) {
+        let arr: toml::Array = a.iter().map(|s| toml::Value::from(s.as_str().unwrap_or(""))).collect();
+        return Some(toml::Item::Value(toml::Value::Array(arr)))
+    }
+    if let Some(p) = v.get("p").and_then(|a| a.as_array()) {
+        let arr: toml::Array = p.iter().map(|pair| {
+            let inner: toml::Array = pair.as_array().map(|x| x.iter()
+                .map(|s| toml::Value::from(s.as_str().unwrap_or(""))).collect()).unwrap_or_default();
+            toml::Value::Array(inner)
+        }).collect();
+        return Some(toml::Item::Value(toml::Value::Array(arr)))
+    }
+    if let Some(raw) = v.get("raw").and_then(|s| s.as_str()) {
+        return raw.parse::<toml::Value>().ok().map(toml::Item::Value)
+    }
+    None
+}
+
+fn file_text(entries: &[Value]) -> Option<String> {
+    let mut table = toml::Table::new();
+    for e in entries {
+        let key = e.get(0)?.as_str()?;
+        table.insert(key, toml_value(e.get(1)?)?);
+    }
+    Some(table.to_string())
+}
+
+//------------ Canonical dumps ------------------------------------------------------------
+
+fn hex(bytes: &[u8]) -> String {
+    if bytes.is_empty() { return ".".into() }
+    let mut s = String::with_capacity(bytes.len() * 2);
+    for b in bytes { s.push_str(&format!("{b:02x}")) }
+    s
+}
+fn hs(s: &str) -> String { hex(s.as_bytes()) }
+fn hp(p: &Path) -> String { hex(p.as_os_str().as_bytes()) }
+
+fn dump_val(v: &toml::Value) -> String {
+    match v {
+        toml::Value::Boolean(b) => if *b.value() { "T".into() } else { "F".into() },
+        toml::Value::Integer(i) => format!("i{}", i.value()),
+        toml::Value::String(s) => format!("s{}", hs(s.value())),
+        toml::Value::Array(a) => {
+            if a.is_empty() { return "a".into() }
+            if a.iter().all(|x| x.is_str()) {
+                return format!("a{}", a.iter().map(|x| hs(x.as_str().unwrap()))
+                    .collect::<Vec<_>>().join("/"))
+            }
+            let mut pairs = Vec::new();
+            for x in a.iter() {
+                match x.as_array() {
+                    Some(inner) if inner.len() == 2 && inner.iter().all(|y| y.is_str()) => {
+                        pairs.push((inner.get(0).unwrap().as_str().unwrap().to_string(),
+                                    inner.get(1).unwrap().as_str().unwrap().to_string()))
+                    }
+                    _ => return "?".into()
+                }
+            }
+            pairs.sort_by(|a, b| a.0.as_bytes().cmp(b.0.as_bytes()));
+            format!("p{}", pairs.iter().map(|(a, b)| format!("{}:{}", hs(a), hs(b)))
+                .collect::<Vec<_>>().join("/"))
+        }
+        _ => "?".into()
+    }
+}
+
+fn dump_doc(text: &str) -> Option<String> {
+    let doc = toml::DocumentMut::from_str(text).ok()?;
+    let mut ents: Vec<(Vec<u8>, String)> = doc.iter().map(|(k, item)| {
+        (k.as_bytes().to_vec(), match item.as_value() { Some(v) => dump_val(v), None => "?".into() })
+    }).collect();
+    ents.sort();
+    Some(ents.iter().map(|(k, v)| format!("{}~{}", hex(k), v)).collect::<Vec<_>>().join(";"))
+}
+
+fn dump_input_val(v: &Value) -> String {
+    match toml_value(v) {
+        Some(toml::Item::Value(v)) => dump_val(&v),
+        _ => "?".into()
+    }
+}
+
+fn facility_name<T: std::fmt::Debug>(f: &T) -> String {
+    let s = format!("{f:?}").to_lowercase();
+    s.strip_prefix("log_").unwrap_or(&s).to_string()
+}
+
+/// Field name → canonical value, for every field this harness knows.
+fn dump_config(c: &Config) -> Vec<(&'static str, String)> {
+    fn b(x: bool) -> String { if x { "T".into() } else { "F".into() } }
+    fn n<T: std::fmt::Display>(x: T) -> String { format!("n{x}") }
+    fn on<T: std::fmt::Display>(x: Option<T>) -> String { x.map(|v| format!("n{v}")).unwrap_or("-".into()) }
+    fn s(x: &str) -> String { format!("s{}", hs(x)) }
+    fn os(x: &Option<String>) -> String { x.as_ref().map(|v| s(v)).unwrap_or("-".into()) }
+    fn p(x: &Path) -> String { format!("s{}", hp(x)) }
+    fn op(x: &Option<PathBuf>) -> String { x.as_ref().map(|v| p(v)).unwrap_or("-".into()) }
+    fn d<T: std::fmt::Display>(x: &T) -> String { s(&x.to_string()) }
+    fn arr(x: Vec<String>) -> String { format!("a{}", x.join("/")) }
+    fn secs(x: std::time::Duration) -> String { n(x.as_secs()) }
+    fn osecs(x: Option<std::time::Duration>) -> String { on(x.map(|v| v.as_secs())) }
+    let mut labels: Vec<(&String, &String)> = c.tal_labels.iter().collect();
+    labels.sort_by(|a, b| a.0.as_bytes().cmp(b.0.as_bytes()));
+    vec![
+        ("config_file", p(&c.config_file)),
+        ("cache_dir", p(&c.cache_dir)),
+        ("no_rir_tals", b(c.no_rir_tals)),
+        ("bundled_tals", arr(c.bundled_tals.iter().map(|x| hs(x)).collect())),
+        ("extra_tals_dir", op(&c.extra_tals_dir)),
+        ("exceptions", arr(c.exceptions.iter().map(|x| hp(x)).collect())),
+        ("strict", b(c.strict)),
+        ("stale", d(&c.stale)),
+        ("unsafe_vrps", d(&c.unsafe_vrps)),
+        ("unknown_objects", d(&c.unknown_objects)),
+        ("limit_v4_len", on(c.limit_v4_len)),
+        ("limit_v6_len", on(c.limit_v6_len)),
+        ("allow_dubious_hosts", b(c.allow_dubious_hosts)),
+        ("fresh", b(c.fresh)),
+        ("disable_rsync", b(c.disable_rsync)),
+        ("rsync_command", s(&c.rsync_command)),
+        ("rsync_args", c.rsync_args.as_ref().map(|v| arr(v.iter().map(|x| hs(x)).collect())).unwrap_or("-".into())),
+        ("rsync_timeout", osecs(c.rsync_timeout)),
+        ("disable_rrdp", b(c.disable_rrdp)),
+        ("rrdp_fallback", d(&c.rrdp_fallback)),
+        ("rrdp_fallback_time", secs(c.rrdp_fallback_time)),
+        ("rrdp_max_delta_count", n(c.rrdp_max_delta_count)),
+        ("rrdp_max_delta_list_len", n(c.rrdp_max_delta_list_len)),
+        ("rrdp_timeout", osecs(c.rrdp_timeout)),
+        ("rrdp_read_timeout", osecs(c.rrdp_read_timeout)),
+        ("rrdp_connect_timeout", osecs(c.rrdp_connect_timeout)),
+        ("rrdp_tcp_keepalive", osecs(c.rrdp_tcp_keepalive)),
+        ("rrdp_local_addr", c.rrdp_local_addr.map(|a| d(&a)).unwrap_or("-".into())),
+        ("rrdp_root_certs", arr(c.rrdp_root_certs.iter().map(|x| hp(x)).collect())),
+        ("rrdp_proxies", arr(c.rrdp_proxies.iter().map(|x| hs(x)).collect())),
+        ("rrdp_user_agent", s(&c.rrdp_user_agent)),
+        ("max_object_size", on(c.max_object_size)),
+        ("max_ca_depth", n(c.max_ca_depth)),
+        ("enable_bgpsec", b(c.enable_bgpsec)),
+        ("enable_aspa", b(c.enable_aspa)),
+        ("dirty_repository", b(c.dirty_repository)),
+        ("validation_threads", n(c.validation_threads)),
+        ("refresh", secs(c.refresh)),
+        ("min_refresh", osecs(c.min_refresh)),
+        ("retry", secs(c.retry)),
+        ("expire", secs(c.expire)),
+        ("history_size", n(c.history_size)),
+        ("rtr_listen", arr(c.rtr_listen.iter().map(|x| hs(&x.to_string())).collect())),
+        ("rtr_tls_listen", arr(c.rtr_tls_listen.iter().map(|x| hs(&x.to_string())).collect())),
+        ("http_listen", arr(c.http_listen.iter().map(|x| hs(&x.to_string())).collect())),
+        ("http_tls_listen", arr(c.http_tls_listen.iter().map(|x| hs(&x.to_string())).collect())),
+        ("systemd_listen", b(c.systemd_listen)),
+        ("rtr_tcp_keepalive", osecs(c.rtr_tcp_keepalive)),
+        ("rtr_client_metrics", b(c.rtr_client_metrics)),
+        ("rtr_tls_key", op(&c.rtr_tls_key)),
+        ("rtr_tls_cert", op(&c.rtr_tls_cert)),
+        ("http_tls_key", op(&c.http_tls_key)),
+        ("http_tls_cert", op(&c.http_tls_cert)),
+        ("log_level", d(&c.log_level)),
+        ("log_target", match &c.log_target {
+            LogTarget::Default(f) => format!("Ld:{}", hs(&facility_name(f))),
+            LogTarget::Syslog(f) => format!("Ly:{}", hs(&facility_name(f))),
+            LogTarget::Stderr => "Le:.".into(),
+            LogTarget::File(path) => format!("Lf:{}", hp(path)),
+        }),
+        ("log_repository_issues", b(c.log_repository_issues)),
+        ("pid_file", op(&c.pid_file)),
+        ("working_dir", op(&c.working_dir)),
+        ("chroot", op(&c.chroot)),
+        ("user", os(&c.user)),
+        ("group", os(&c.group)),
+        ("tal_labels", format!("p{}", labels.iter().map(|(a, b)| format!("{}:{}", hs(a), hs(b)))
+            .collect::<Vec<_>>().join("/"))),
+    ]
+}
+
+fn show_dump(d: &[(&'static str, String)]) -> String {
+    d.iter().map(|(k, v)| format!("{k}:{v}")).collect::<Vec<_>>().join(",")
+}
+
+/// field → config file key (for failure classes only).
+fn field_key(field: &str) -> String {
+    match field {
+        "cache_dir" => "repository-dir".into(),
+        "bundled_tals" => "tals".into(),
+        "dirty_repository" => "dirty".into(),
+        "log_target" => "log".into(),
+        other => other.replace('_', "-"),
+    }
+}
+
+//------------ One case ---------------------------------------------------------------------
+
+struct Outcome {
+    /// The canonical line (compared with the model), or None for oracle-only cases.
+    line: String,
+    failures: Vec<(String, String)>,
+    signature: String,
+}
+
+fn arg_strings(input: &Value) -> Vec<String> {
+    let mut res = Vec::new();
+    for a in input["args"].as_array().into_iter().flatten() {
+        if let Some(s) = a[1].get("s").and_then(|s| s.as_str()) { res.push(s.to_string()) }
+    }
+    if let Some(base) = input.get("base").filter(|b| !b.is_null()) {
+        for e in base["entries"].as_array().into_iter().flatten() {
+            if let Some(s) = e[1].get("s").and_then(|s| s.as_str()) { res.push(s.to_string()) }
+            for s in e[1].get("a").and_then(|a| a.as_array()).into_iter().flatten() {
+                if let Some(s) = s.as_str() { res.push(s.to_string()) }
+            }
+        }
+    }
+    res
+}
+
+fn canon_entries(input: &Value) -> String {
+    let mut strings: BTreeSet<String> = arg_strings(input).into_iter().collect();
+    for s in ["WARN", "DEBUG", "INFO", "OFF", "ERROR"] { strings.insert(s.into()); }
+    // the printed (canonical) forms are parsed again when the file is read back
+    for s in strings.clone() {
+        if let Ok(v) = log::LevelFilter::from_str(&s) { strings.insert(v.to_string()); }
+        if let Ok(v) = IpAddr::from_str(&s) { strings.insert(v.to_string()); }
+        if let Ok(v) = SocketAddr::from_str(&s) { strings.insert(v.to_string()); }
+    }
+    let mut ents = Vec::new();
+    for s in &strings {
+        let lv = log::LevelFilter::from_str(s).ok().map(|v| v.to_string());
+        let ip = IpAddr::from_str(s).ok().map(|v| v.to_string());
+        let so = SocketAddr::from_str(s).ok().map(|v| v.to_string());
+        for (ty, out) in [("LevelFilter", lv), ("IpAddr", ip), ("SocketAddr", so)] {
+            // rejections are the default of the driver's table
+            if let Some(out) = out { ents.push(format!("{}~{}~{}", hs(ty), hs(s), hs(&out))) }
+        }
+    }
+    if ents.is_empty() { "-".into() } else { ents.join(";") }
+}
+
+/// Is every string of the input valid for the model (no raw byte paths)?
+fn has_raw_bytes(input: &Value) -> bool {
+    input["args"].as_array().into_iter().flatten().any(|a| a[1].get("bytes").is_some())
+}
+
+fn build_argv(input: &Value, cat: &[Opt], conf: Option<&Path>) -> Option<Vec<OsString>> {
+    let mut global: Vec<OsString> = Vec::new();
+    let mut server: Vec<OsString> = Vec::new();
+    for a in input["args"].as_array().into_iter().flatten() {
+        let opt = a[0].as_str()?;
+        let info = cat.iter().find(|o| format!("--{}", o.long) == opt)?;
+        let out = if info.server { &mut server } else { &mut global };
+        let v = &a[1];
+        if v.as_str() == Some("f") {
+            out.push(opt.into());
+        } else if let Some(n) = v.get("c").and_then(|c| c.as_u64()) {
+            for _ in 0..n { out.push(opt.into()) }
+        } else if let Some(n) = v.get("n").and_then(|n| n.as_str()) {
+            out.push(format!("{opt}={n}").into());
+        } else if let Some(s) = v.get("s").and_then(|s| s.as_str()) {
+            out.push(format!("{opt}={s}").into());
+        } else if let Some(b) = v.get("bytes").and_then(|b| b.as_array()) {
+            let mut bytes = format!("{opt}=").into_bytes();
+            bytes.extend(b.iter().map(|x| x.as_u64().unwrap_or(0) as u8));
+            out.push(OsString::from_vec(bytes));
+        } else { return None }
+    }
+    let mut argv: Vec<OsString> = vec!["routinator".into()];
+    if let Some(conf) = conf { argv.push("-c".into()); argv.push(conf.into()); }
+    argv.extend(global);
+    argv.push("config".into());
+    argv.extend(server);
+    Some(argv)
+}
+
+fn op_aval(v: &Value) -> Option<String> {
+    if v.as_str() == Some("f") { return Some("f".into()) }
+    if let Some(n) = v.get("c").and_then(|c| c.as_u64()) { return Some(format!("c{n}")) }
+    if let Some(n) = v.get("n").and_then(|n| n.as_str()) { return Some(format!("n{n}")) }
+    if let Some(s) = v.get("s").and_then(|s| s.as_str()) { return Some(format!("s{}", hs(s))) }
+    None
+}
+
+fn run_case(input: &Value, home: &Home, cat: &[Opt], vt: usize, ua: &str) -> Option<(String, Outcome)> {
     let cur = Path::new("/cur");
-    for extra in [
-        vec![], vec!["--no-rir-tals"], vec!["--tal=foo"], vec!["config", "--history=65536"],
-        vec!["--validation-threads=65536"], vec!["config", "--refresh=9223372036854775808"],
-        vec!["--syslog", "--syslog-facility=clock_daemon"], vec!["--fresh"],
-        vec!["--strict", "--strict"], vec!["-v", "-q"], vec!["--rsync-timeout=18446744073709551616"],
-        vec!["-vvv"], vec!["--logfile=-"], vec!["--logfile=x.log"], vec!["-r", ""],
-    ] {
-        let _ = std::fs::remove_file(home.join(".routinator.conf"));
-        let mut args = vec!["routinator"];
-        args.extend(extra.iter().cloned());
-        if !args.contains(&"config") { args.push("config"); }
-        let c = match load(&args, cur) { Ok(c) => c, Err(e) => { println!("{args:?}: reject {e}"); continue } };
-        let text = c.to_string();
-        std::fs::write(home.join(".routinator.conf"), &text).unwrap();
-        match load(&["routinator", "config"], cur) {
-            Ok(d) => println!("{args:?}: same={} ", c == d),
-            Err(e) => println!("{args:?}: readback reject {e}"),
+    let base = input.get("base").filter(|b| !b.is_null());
+    let explicit = base.map(|b| b["explicit"].as_bool().unwrap_or(false)).unwrap_or(false);
+    let conf = home.conf_path(explicit);
+    let _ = std::fs::remove_file(home.conf_path(true));
+    let _ = std::fs::remove_file(home.conf_path(false));
+    let conf_arg = if explicit { Some(conf.as_path()) } else { None };
+
+    // --- op line for the model
+    let file_part = match base {
+        None => "-".to_string(),
+        Some(b) => format!("+{}", b["entries"].as_array()?.iter().map(|e| {
+            Some(format!("{}~{}", hs(e[0].as_str()?), dump_input_val(&e[1])))
+        }).collect::<Option<Vec<_>>>()?.join(";")),
+    };
+    let args_part = {
+        let v = input["args"].as_array()?.iter().map(|a| {
+            Some(format!("{}~{}", hs(a[0].as_str()?), op_aval(&a[1])?))
+        }).collect::<Option<Vec<_>>>();
+        match v { Some(v) if v.is_empty() => "-".to_string(), Some(v) => v.join(";"), None => "?".to_string() }
+    };
+    let fields: Vec<&'static str> = dump_config(&Config::default_with_paths("/x".into(), "/y".into()))
+        .iter().map(|(k, _)| *k).collect();
+    let op = format!(
+        "c35 cur={} path={} dir={} home={} vt={} ua={} fields={} canon={} file={} args={}",
+        hp(cur), hp(&conf), hp(conf.parent().unwrap()), hp(&home.dir), vt, hs(ua),
+        fields.join(","), canon_entries(input), file_part, args_part
+    );
+
+    // --- the real code
+    if let Some(b) = base {
+        let text = file_text(b["entries"].as_array()?)?;
+        std::fs::write(&conf, text).ok()?;
+    }
+    let argv = build_argv(input, cat, conf_arg)?;
+    let mut failures = Vec::new();
+    let first = run_pipeline(&argv, cur);
+    let c1 = match first {
+        Err(Rej::Clap) => {
+            return Some((op, Outcome { line: "rej:clap".into(), failures, signature: "rej:clap".into() }))
+        }
+        Err(Rej::Config) => {
+            // the file alone, or the options?
+            let alone = if base.is_some() {
+                run_pipeline(&build_argv(&json!({"args": []}), cat, conf_arg)?, cur).is_ok()
+            } else { true };
+            let line = if alone { "rej:apply" } else { "rej:file" };
+            return Some((op, Outcome { line: line.into(), failures, signature: line.into() }))
+        }
+        Ok(c) => c,
+    };
+    let text = c1.to_string();
+    let d1 = dump_config(&c1);
+    let toml_dump = dump_doc(&text);
+    std::fs::write(&conf, &text).ok()?;
+    let back_argv = build_argv(&json!({"args": []}), cat, conf_arg)?;
+    let second = run_pipeline(&back_argv, cur);
+    let mut expect = c1.clone();
+    expect.fresh = false; // documented: "This option is only available on command line."
+    let same = matches!(&second, Ok(c2) if *c2 == expect);
+    let back = match &second { Ok(c2) => show_dump(&dump_config(c2)), Err(_) => "rej".into() };
+    let line = format!(
+        "ok eg=1 cfg={} toml={} back={} same={}",
+        show_dump(&d1), toml_dump.clone().unwrap_or("unparsable".into()), back, if same { 1 } else { 0 }
+    );
+
+    // --- oracle
+    let big = |v: &str| v.strip_prefix('n').and_then(|n| n.parse::<u128>().ok()).map(|n| n > I64MAX).unwrap_or(false);
+    if !same {
+        let printed: BTreeSet<String> = toml::DocumentMut::from_str(&text).ok()
+            .map(|d| d.iter().map(|(k, _)| k.to_string()).collect()).unwrap_or_default();
+        let raw_fields: BTreeSet<String> = input["args"].as_array().into_iter().flatten()
+            .filter(|a| a[1].get("bytes").is_some())
+            .map(|a| a[0].as_str().unwrap_or("").trim_start_matches("--").replace('-', "_")).collect();
+        match &second {
+            Ok(c2) => {
+                let d2 = dump_config(c2);
+                let dflt = dump_config(&Config::default());
+                let mut found = false;
+                for (((k, v1), (_, v2)), (_, v0)) in d1.iter().zip(d2.iter()).zip(dflt.iter()) {
+                    if *k == "fresh" || v1 == v2 { continue }
+                    found = true;
+                    let class = if big(v1) { format!("int-above-i64max:{}", field_key(k)) }
+                        else if !raw_fields.is_empty() && String::from_utf8(unhex(v1)).is_err() {
+                            format!("path-not-utf8:{}", field_key(k))
+                        }
+                        else if !printed.contains(&field_key(k)) && v1 != v0 { format!("key-not-printed:{}", field_key(k)) }
+                        else { format!("field-differs:{k}") };
+                    failures.push((class, format!("{k}: {v1} printed and read back as {v2}")));
+                }
+                if !found {
+                    // a field this harness has no dump for (an option added later)
+                    let bigs: Vec<String> = input["args"].as_array().into_iter().flatten()
+                        .filter(|a| a[1].get("n").and_then(|n| n.as_str())
+                            .and_then(|n| n.parse::<u128>().ok()).map(|n| n > I64MAX).unwrap_or(false))
+                        .map(|a| a[0].as_str().unwrap_or("").trim_start_matches("--").to_string()).collect();
+                    if bigs.is_empty() {
+                        failures.push(("config-differs:unlisted-field".into(),
+                            "read-back Config != original in a field unknown to the harness".into()));
+                    }
+                    for o in bigs {
+                        failures.push((format!("int-above-i64max:{o}"),
+                            format!("--{o} above i64::MAX: read-back Config != original")));
+                    }
+                }
+            }
+            Err(_) => {
+                // which printed key is refused?
+                let mut culprits = Vec::new();
+                if let Ok(doc) = toml::DocumentMut::from_str(&text) {
+                    for (key, _) in doc.iter() {
+                        let mut smaller = doc.clone();
+                        smaller.remove(key);
+                        if std::fs::write(&conf, smaller.to_string()).is_ok()
+                            && run_pipeline(&back_argv, cur).is_ok()
+                        {
+                            culprits.push(key.to_string())
+                        }
+                    }
+                    let _ = std::fs::write(&conf, &text);
+                }
+                else {
+                    failures.push(("print-unparsable".into(), "printed text is not TOML".into()));
+                }
+                if culprits.is_empty() && toml_dump.is_some() {
+                    failures.push(("readback-reject:multiple".into(),
+                        "printed config is rejected (no single key responsible)".into()));
+                }
+                for key in culprits {
+                    let field = key.replace('-', "_");
+                    let v1 = d1.iter().find(|(k, _)| field_key(k) == key).map(|(_, v)| v.clone()).unwrap_or_default();
+                    let class = if big(&v1) { format!("int-above-i64max:{key}") }
+                        else if v1.starts_with('n') { format!("range-mismatch:{key}") }
+                        else { format!("readback-reject:{key}") };
+                    failures.push((class, format!("{field}={v1}: printed value of '{key}' is refused by the reader")));
+                }
+            }
+        }
+    }
+    let n_args = input["args"].as_array().map(|a| a.len()).unwrap_or(0);
+    let signature = format!("ok:{}:{}:{}", if base.is_some() { "file" } else { "dflt" }, n_args.min(4), same);
+    Some((op, Outcome { line, failures, signature }))
+}
+
+fn unhex(v: &str) -> Vec<u8> {
+    let v = v.trim_start_matches(|c: char| !c.is_ascii_hexdigit() || c.is_ascii_uppercase());
+    let v = if v.len() > 1 && v.as_bytes()[0] == b's' { &v[1..] } else { v };
+    (0..v.len() / 2).filter_map(|i| u8::from_str_radix(v.get(2 * i..2 * i + 2)?, 16).ok()).collect()
+}
+
+//------------ Component -----------------------------------------------------------------------
+
+pub fn run_c35(ctx: &mut Ctx) {
+    let home = Home::new();
+    let cat = catalogue();
+    let keys = file_keys();
+    let dflt = Config::default();
+    let vt = dflt.validation_threads;
+    let ua = dflt.rrdp_user_agent.clone();
+    ctx.rule = "options found by introspection of the real clap Command (global + `config` \
+        sub-command), each alone at every range edge (0,1,32/33,128/129,255/256,65535/65536,\
+        u32::MAX±1,i64::MAX±1,u64::MAX±1) / every pool string, each config-file key alone with \
+        edge values, then random combinations of up to 8 options over an optional base file of \
+        up to 10 keys; non-trivial = accepted by clap and the file reader; distinct = \
+        (base kind, #options, outcome)".into();
+    ctx.extra("options", json!(cat.iter().map(|o| format!("--{}", o.long)).collect::<Vec<_>>()));
+
+    let mut inputs: Vec<Value> = Vec::new();
+    if let Some(replay) = ctx.replay_inputs() {
+        inputs = replay;
+    } else {
+        inputs.extend(ctx.corpus("C35"));
+        let mut rng = ctx.rng.fork();
+        // (a) every option alone, at every edge
+        inputs.push(json!({"base": null, "args": []}));
+        for o in &cat {
+            let opt = format!("--{}", o.long);
+            match &o.kind {
+                OptKind::Flag => inputs.push(json!({"base": null, "args": [[opt, "f"]]})),
+                OptKind::Count => for n in 1..=3 {
+                    inputs.push(json!({"base": null, "args": [[opt, {"c": n}]]}))
+                },
+                OptKind::Nat => for n in NAT_EDGES {
+                    if ctx.quick() && !ctx.search && rng.chance(1, 3) { continue }
+                    inputs.push(json!({"base": null, "args": [[opt, {"n": n.to_string()}]]}))
+                },
+                OptKind::Str(_) => for s in pool(opt_cat(o)) {
+                    if o.multi {
+                        inputs.push(json!({"base": null, "args": [[opt, {"s": s}], [opt, {"s": "rsync"}]]}))
+                    }
+                    inputs.push(json!({"base": null, "args": [[opt, {"s": s}]]}))
+                },
+            }
+        }
+        inputs.push(json!({"base": null, "args": [["--logfile", {"s": "-"}]]}));
+        inputs.push(json!({"base": null, "args": [["--syslog", "f"], ["--syslog-facility", {"s": "clock_daemon"}]]}));
+        inputs.push(json!({"base": null, "args": [["--syslog", "f"], ["--logfile", {"s": "x.log"}]]}));
+        inputs.push(json!({"base": null, "args": [["--verbose", {"c": 1}], ["--quiet", {"c": 1}]]}));
+        inputs.push(json!({"base": null, "args": [["--strict", "f"], ["--strict", "f"]]}));
+        // (b) every file key alone
+        for (k, kind) in &keys {
+            let reps = match kind { KeyKind::Bool => 2, KeyKind::Int => 10, _ => 6 };
+            for _ in 0..reps {
+                let v = gen_fval(&mut rng, *kind);
+                let entries = if k == "repository-dir" { json!([[k, v]]) }
+                    else { json!([["repository-dir", {"s": "/var/repo"}], [k, v]]) };
+                inputs.push(json!({"base": {"explicit": rng.chance(1, 2), "entries": entries}, "args": []}));
+            }
+        }
+        // every syslog facility through the file
+        for f in pool(Cat::Facility) {
+            for l in ["default", "syslog"] {
+                inputs.push(json!({"base": {"explicit": false, "entries":
+                    [["repository-dir", {"s": "repo"}], ["log", {"s": l}], ["syslog-facility", {"s": f}]]}, "args": []}));
+            }
+        }
+        // (c) random combinations
+        let n = ctx.budget(1500, 60000);
+        for i in 0..n {
+            let base = if i % 3 == 0 { Value::Null } else { gen_base(&mut rng, &keys, 10) };
+            let args = gen_args(&mut rng, &cat, if i % 5 == 0 { 2 } else { 8 });
+            inputs.push(json!({"base": base, "args": args}));
+        }
+        // (d) paths that are not UTF-8 (oracle only: the model's strings are printed verbatim)
+        for o in cat.iter().filter(|o| o.kind == OptKind::Str("PathBuf")) {
+            inputs.push(json!({"base": null, "args": [[format!("--{}", o.long), {"bytes": [47, 116, 109, 112, 47, 255, 120]}]]}));
+        }
+    }
+
+    for input in inputs {
+        let oracle_only = has_raw_bytes(&input);
+        match run_case(&input, &home, &cat, vt, &ua) {
+            None => { ctx.count("bad-input"); continue }
+            Some((op, out)) => {
+                if oracle_only { ctx.case_oracle_only(&input, &out.line) }
+                else { ctx.case(&input, &op, &out.line) }
+                ctx.count(out.signature.split(':').next().unwrap_or("?"));
+                if out.line.starts_with("rej:") { ctx.count(&out.line) }
+                if out.line.starts_with("ok") { ctx.nontrivial(out.signature.clone()) }
+                for (class, reason) in out.failures {
+                    ctx.oracle_fail(&class, &reason, &input, json!({"impl": out.line}));
+                }
+            }
         }
     }
 }
